@@ -234,6 +234,7 @@ func fioBigRawCase(c *Ctx, kind int, ns []int) (bool, string) {
 }
 
 func runFIOBig(c *Ctx) {
+	wireNilDict = true
 	ns := fioSweep()
 	for mi, mode := range fioBigModes {
 		for k := range fioBigKinds {
